@@ -91,4 +91,35 @@ pub fn status_tables<S: Src>(s: &mut S) {
     s.reached();
 }
 
+/// Accept set and code inversion only (no phrase comparison).
+pub fn status_codes<S: Src>(s: &mut S) {
+    let code = s.u16();
+    match StatusCode::try_from(code) {
+        Ok(st) => {
+            assert!(registered(code).is_some(), "C07 status: only registered codes are accepted");
+            assert!(u16::from(st) == code, "C07 status: u16::from(try_from(c)) == c");
+        }
+        Err(_) => assert!(registered(code).is_none(), "C07 status: every modelled code is accepted"),
+    }
+    s.reached();
+}
+
+/// Class digit: the first digit of every modelled code is 1..5 and the variant's code stays in its class.
+pub fn status_class<S: Src>(s: &mut S) {
+    let code = s.u16();
+    if let Ok(st) = StatusCode::try_from(code) {
+        let c = u16::from(st);
+        assert!(c >= 100 && c <= 599, "C07 status: codes are three-digit 1xx..5xx");
+        let phrase: &str = st.into();
+        assert!(phrase.len() >= 2 && phrase.len() <= 40, "C07 status: reason phrase is non-empty, single line sized");
+        let b = phrase.as_bytes();
+        let mut i = 0;
+        while i < b.len() {
+            assert!(b[i] >= 0x20 && b[i] < 0x7f, "C07 status: reason phrase is printable ASCII (no CR/LF)");
+            i += 1;
+        }
+    }
+    s.reached();
+}
+
 include!("gen/c07_list.rs");
